@@ -117,7 +117,7 @@ Print Assumptions C17_getitem_confined.
 Lemma list_eqb_refl {A} (f : A -> A -> bool) : (forall a, f a a = true) -> forall l, list_eqb f l l = true.
 Proof. intros Hf. induction l as [|a l IH]; cbn; [reflexivity|]. now rewrite Hf, IH. Qed.
 Lemma res_eqb_refl r : res_eqb r r = true.
-Proof. destruct r; cbn; auto. apply EngineProofs.bytes_eqb_refl. Qed.
+Proof. destruct r; cbn; auto using N.eqb_refl. apply EngineProofs.bytes_eqb_refl. Qed.
 
 Theorem C17_holds : forall c, valid c -> holds c (run_model c) = [].
 Proof.
@@ -148,7 +148,7 @@ Definition MAIN : bytes := [109]%N.                              (* "m" *)
 Definition cfg_d12 (bug : bool) : config :=
   {| root_dir := Some R; cache_enabled := false; relative_includes := true; cwd := R; arity_bug := bug; base_ctx := [] |}.
 Definition hist_d12 : list step :=
-  [Edit (R ++ [47%N] ++ MAIN) (Some {| items := [Text [65%N]]; export := [] |}) false; Render MAIN []; Render MAIN []].
+  [Edit (R ++ [47%N] ++ MAIN) (Some {| items := [Text [65%N]]; export := []; broken := 0 |}) false; Render MAIN []; Render MAIN []].
 
 Theorem C17_refuted_old_callback_arity :
   run 3 (cfg_d12 true) est0 hist_d12 = [Ok [65%N]; ETypeError] /\
@@ -164,10 +164,10 @@ Definition cfg_nv : config :=
 Definition P_MAIN : bytes := R ++ [47; 115; 47; 109]%N.          (* /r/s/m *)
 Definition P_INC : bytes := R ++ [47; 115; 47; 105]%N.           (* /r/s/i *)
 Definition hist_nv : list step :=
-  [Edit P_MAIN (Some {| items := [Text [77%N]; Var [97%N]; Include [105%N]]; export := [] |}) false;
-   Edit P_INC (Some {| items := [Text [73%N]]; export := [] |}) false;
+  [Edit P_MAIN (Some {| items := [Text [77%N]; Var [97%N]; Include [105%N]]; export := []; broken := 0 |}) false;
+   Edit P_INC (Some {| items := [Text [73%N]]; export := []; broken := 0 |}) false;
    Render P_MAIN [([97%N], [50%N])];
-   Edit P_INC (Some {| items := [Text [74%N]]; export := [] |}) true;
+   Edit P_INC (Some {| items := [Text [74%N]]; export := []; broken := 0 |}) true;
    Render P_MAIN []].
 Example C17_nonvacuous :
   valid (CEngine cfg_nv hist_nv) /\
@@ -179,8 +179,8 @@ Proof. split; [split; reflexivity | vm_compute; reflexivity]. Qed.
 Definition cfg_d18 : config :=
   {| root_dir := Some R; cache_enabled := true; relative_includes := true; cwd := R; arity_bug := false; base_ctx := [] |}.
 Definition hist_d18 (keep : bool) : list step :=
-  [Edit (R ++ [47%N] ++ MAIN) (Some {| items := [Text [65%N]]; export := [] |}) false; Render MAIN [];
-   Edit (R ++ [47%N] ++ MAIN) (Some {| items := [Text [66%N]]; export := [] |}) keep; Render MAIN []].
+  [Edit (R ++ [47%N] ++ MAIN) (Some {| items := [Text [65%N]]; export := []; broken := 0 |}) false; Render MAIN [];
+   Edit (R ++ [47%N] ++ MAIN) (Some {| items := [Text [66%N]]; export := []; broken := 0 |}) keep; Render MAIN []].
 Theorem C17_refuted_D18_fsl_mtime_only :
   run 5 cfg_d18 est0 (hist_d18 true) = [Ok [65%N]; Ok [65%N]] /\
   run_fresh 5 cfg_d18 est0 (hist_d18 true) = [Ok [65%N]; Ok [66%N]] /\
@@ -189,6 +189,16 @@ Theorem C17_refuted_D18_fsl_mtime_only :
   run 5 cfg_d18 est0 (hist_d18 false) = [Ok [65%N]; Ok [66%N]] /\
   history_ok cfg_d18 (hist_d18 true) = false /\ history_ok cfg_d18 (hist_d18 false) = true.
 Proof. repeat split; vm_compute; reflexivity. Qed.
+
+(* an edit to content that does not compile: every render raises (as a fresh engine's) until the file is repaired;
+   the old compiled template is never served again *)
+Example C17_broken_edit :
+  run 6 cfg_nv est0
+    [Edit P_MAIN (Some {| items := [Text [77%N]]; export := []; broken := 0 |}) false; Render P_MAIN [];
+     Edit P_MAIN (Some {| items := []; export := []; broken := 1 |}) false; Render P_MAIN []; Render P_MAIN [];
+     Edit P_MAIN (Some {| items := [Text [78%N]]; export := []; broken := 0 |}) false; Render P_MAIN []]
+  = [Ok [77%N]; EBroken 1; EBroken 1; Ok [78%N]].
+Proof. vm_compute. reflexivity. Qed.
 
 (* the mutant prefix test startswith(allowed[:-2]) lets "osx" through "os.*" *)
 Example C17_allow_prefix_mutant :
